@@ -323,6 +323,17 @@ def hold_cases():
                ["peer_set_best", ext], ["deliver", 0], ["answer", 0]] + [["deliver", 0]] * nb + \
               [["process_hold"], ["check"], ["process_release"], ["settle", SETTLE]]
         res.append({"cfg": {"parents": par2, "start": 0, "m": 2000, "bgblocks": 1, "mempool": 1}, "ops": ops, "skip_model": True})
+    # the peer replaces its tip by a SIBLING (same height, more work: one new header announced alone) while the node has
+    # the old tip's block outstanding / delivered / processed ("reorg on latest block").  The model's peer only switches
+    # to a chain with more blocks, so these are monitor-only.
+    par3 = [[i, i - 1] for i in range(1, 6)] + [[50, 4], [51, 50]]
+    m4 = [0, 1, 2, 3, 4]
+    for mid in ([["deliver", 0]], [["deliver", 0], ["answer", 0], ["deliver", 0]],
+                [["deliver", 0], ["answer", 0], ["deliver", 0], ["process"]]):
+        for tail in ([], [["peer_set_best", m4 + [50, 51]], ["settle", SETTLE]]):
+            ops = [["peer_set_best", m4], ["settle", SETTLE], ["peer_set_best", m4 + [5]]] + mid + \
+                  [["peer_set_best", m4 + [50]], ["deliver", 0], ["settle", SETTLE]] + tail
+            res.append({"cfg": {"parents": par3, "start": 0, "m": 2000, "sibling": 1}, "ops": ops, "skip_model": True})
     # held while the next announcement simply extends the chain (nothing is skipped)
     ops = [["peer_set_best", main], ["settle", SETTLE], ["peer_set_best", main + [50]], ["deliver", 0], ["answer", 0], ["deliver", 0],
            ["process_hold"], ["peer_set_best", main + [50, 51]], ["deliver", 0], ["process_release"], ["settle", SETTLE]]
